@@ -5,6 +5,10 @@ HERE = os.path.dirname(os.path.dirname(os.path.abspath(__file__)))
 
 # id -> (technique, level text, level note, design section)
 CHECKS = {
+ "C05": ("deviation-bounded exhaustive enumeration of layouts (whitespace/comment shape at every token gap, pairs on selected documents) with a token-line oracle from an independent tokenizer; exhaustive single-edit histories per list kind with an exact line-diff oracle",
+         "(i)/(ii): every carrier and rich document x 7 whitespace shapes at every gap the scope allows x 7 comment shapes at every block-level gap, CRLF, all pairs of such deviations on selected documents: each significant token is on the same line in input and output, and the writer's own output is reproduced byte for byte. (iii): for each of 18 module-level list kinds, a 3-element document in 3 layouts x {edit string field, edit numeric field, remove first/middle/last, push builder-made element with/without sort_new_items}: the new text equals the old text with exactly the lines of that object changed, removed or inserted.",
+         "scope of the quantifier (canonical order, include-free, no raw line breaks in strings, comments only between sub-elements); nested list kinds are represented by ANNOTATION/AXIS_DESCR-like children only through the layout part",
+         "DESIGN.md 5/C05"),
  "C02": ("deviation-bounded exhaustive enumeration of valid documents; input and first output compared as canonical token lists of the reference interpreter's trees; exhaustive uninterpreted IF_DATA token sequences; limit literals per integer width",
          "Every document of the grammar corpus, every value class at every scalar parameter, 7 comment shapes at every gap, reversed RECORD_LAYOUT positions, all token sequences of length <= 3 (thorough 4) over a 15-token alphabet inside uninterpreted IF_DATA (with and without leading tag), A2ML-described IF_DATA; every integer parameter x 9..12 literals at and beyond its limits. Oracle: same significant tokens in the same order modulo number/escape notation and the documented reordering; block-level comments kept; an out-of-range literal is rejected, diagnosed or preserved - never silently changed.",
          "fractions inside uninterpreted IF_DATA are compared at f32 precision (the library stores them as f32); comments outside blocks with optional sub-elements may be dropped (statement)",
